@@ -419,6 +419,12 @@ def proc_histories(res, tier, wd):
                 lines += ["note h%d" % len(cases), "scanner 1 0", "scan 1 %d mem - - -" % d, "sdestroy 1",
                           "scanner 0 0"] + (["stimeout 0 1"] if tmo else []) + ["scan 0 %d proc - - %s" % (d, ending), "stimeout 0 0", "scan 0 %d mem - - -" % d, "sdestroy 0"]
                 cases.append((ending, tmo, d))
+    # a time limit set ONCE on a long-lived scanner is a limit per scan: scans made after more than that time has passed since it
+    # was set (here 1.3 s of idling between scans, limit 1 s) report what a fresh scanner reports
+    for d in (1, 3):
+        lines += ["note h%d" % len(cases), "scanner 1 0", "scan 1 %d mem - - -" % d, "sdestroy 1",
+                  "scanner 0 0", "stimeout 0 1", "scan 0 %d mem - - -" % d, "sleepms 1300", "scan 0 %d mem - - -" % d, "sdestroy 0"]
+        cases.append(("idle", 1, d))
     lines += ["rdestroy 0", "finalize"]
     run = yv.run_script(exe, lines, wd, name="c10_proc", hang=120, timeout=1200)
     if not run.complete:
